@@ -272,6 +272,13 @@ func runC19(c *Ctx) {
 			return true
 		}
 
+		// append onto a clipped slice (cap == len) with at least one element always reallocates
+		if cn == "builtin.append" && len(call.Common().Args) == 2 && !isNilConst(call.Common().Args[1]) {
+			if base, _ := CallOf(Fwd(call.Common().Args[0])); base != nil && p.CalleeName(base) == "slices.Clip" {
+				return true
+			}
+		}
+
 		// a transformer applied to storage created in this call stays in that storage
 		if GlobAny(sliceMutators, cn) && len(call.Common().Args) > 0 {
 			return fresh(call.Common().Args[0])
@@ -320,7 +327,7 @@ func runC19(c *Ctx) {
 				return isIdx && !isVarargStore(x)
 			case *ssa.Call:
 				// append / slices.Delete / … onto something that is not this call's own storage
-				return GlobAny(sliceMutators, p.CalleeName(x)) && len(x.Call.Args) > 0 && !fresh(x.Call.Args[0])
+				return GlobAny(sliceMutators, p.CalleeName(x)) && len(x.Call.Args) > 0 && !fresh(x.Call.Args[0]) && !fresh(x)
 			}
 
 			return false
